@@ -46,7 +46,7 @@ structure ChanStep (par : Nat) (c c' : Chan) : Prop where
   maxPacketLifeTime : c'.maxPacketLifeTime = c.maxPacketLifeTime
   negotiated : c'.negotiated = c.negotiated
   id_keep : ∀ s, c.id = some s → c'.id = some s
-  id_auto : c.id = none → ∀ s, c'.id = some s → s % 2 = par
+  id_auto : c.id = none → ∀ s, c'.id = some s → s % 2 = par ∧ s ≤ 65535
 
 theorem ChanStep.refl (par : Nat) (c : Chan) : ChanStep par c c :=
   ⟨Nat.le_refl _, rfl, rfl, rfl, rfl, rfl, rfl, fun _ h => h, fun h s hs => by rw [h] at hs; cases hs⟩
